@@ -1836,6 +1836,13 @@ func (app *App) repairSlaveNode(node *mysql.Node, clusterState map[string]*nodes
 		err := app.stopReplicationOnMaster(node)
 		if err != nil {
 			app.logger.Error().Err(err).Msg("repair")
+			return
+		}
+		app.logger.Info().Msgf("repair: mark stale master %s for recovery", host)
+		err = app.SetRecovery(host)
+		if err != nil {
+			app.logger.Error().Err(err).Msgf("repair: error setting stale master %s for recovery", host)
+			return
 		}
 		err = app.externalReplication.Stop(node)
 		if err != nil {
@@ -1849,11 +1856,6 @@ func (app *App) repairSlaveNode(node *mysql.Node, clusterState map[string]*nodes
 		err = app.performChangeMaster(host, master)
 		if err != nil {
 			app.logger.Error().Err(err).Msgf("repair: error turning stale master %s to new master", host)
-		}
-		app.logger.Info().Msgf("repair: mark stale master %s for recovery", host)
-		err = app.SetRecovery(host)
-		if err != nil {
-			app.logger.Error().Err(err).Msgf("repair: error setting stale master %s for recovery", host)
 		}
 		return
 	}
